@@ -279,22 +279,45 @@ def run(ctx, n_files=None):
             else:
                 obs = out
             ctx.count("loader:%s:%s" % (fclass, out))
+            # UUIDs carried by several attached nodes: which of them the
+            # table names at the end depends on the order in which the final
+            # registration walk meets them (iteration over Python sets) -
+            # any of them is coherent; such entries are masked on both sides
+            amb = set()
+            if ir is not None:
+                seen = {}
+                for n in [ir] + list(ir.modules) + list(ir.sections) + \
+                        list(ir.symbols) + list(ir.proxy_blocks) + \
+                        list(ir.byte_intervals) + list(ir.byte_blocks):
+                    seen[n.uuid.int] = seen.get(n.uuid.int, 0) + 1
+                amb = {u for u, k in seen.items() if k > 1}
+                if amb:
+                    ctx.count("loader:ambiguous-table-entry")
+
+            def masked(txt, amb=amb):
+                if not amb or " table=" not in txt:
+                    return txt
+                head, tab = txt.split(" table=", 1)
+                toks = [t if int(t.split(">")[0]) not in amb
+                        else t.split(">")[0] + ">*" for t in tab.split(" ")]
+                return head + " table=" + " ".join(toks)
             ctx.nontriv(("loader", fclass, out))
 
-            def cb(i, line, a, b):
+            def cb(i, line, a, b, masked=masked):
                 # the model does not carry `_proto_interval`: a re-used
                 # interval whose expressions were already decoded makes the
                 # implementation raise AttributeError where the model goes on
-                return a == "exc:AttributeError"
+                return a == "exc:AttributeError" or masked(a) == masked(b)
             if out == "exc:AttributeError":
                 obs_x = "err:attribute"
             else:
                 obs_x = obs
 
-            def cbx(i, line, a, b):
+            def cbx(i, line, a, b, masked=masked):
                 # which of two failing intervals the real loader meets first
                 # is its set iteration order
-                return {a, b} == {"err:attribute", "err:deser"}
+                return {a, b} == {"err:attribute", "err:deser"} or \
+                    masked(a) == masked(b)
             tie_x.add_checked("file %d %s" % (fno, what),
                               ["loadx " + " ".join(
                                   skeleton(m2, per_interval=True)[0])],
